@@ -41,6 +41,68 @@ def cond_specs(rep, rng, n, events, recipes):
         rep.note_case(repr(lit))
 
 
+def shared_schema_specs(rep, rng, n):
+    """lists of rule specs in which several rules SHARE sub-structures (the same path sequence - list or tuple -, the
+    same condition mapping, cast table or doc block: what YAML anchors / aliases or a program building specs in a loop
+    produce), parsed through every schema-level entry point, twice; the caller's structures - the list, every rule
+    mapping, every shared object - must be left type-exactly as they were (identity included), and the second parse
+    must equal the first.  Python-side companion of SpecStore.tla's SpecUnchanged / Reparse for whole schemas."""
+    import valida
+
+    done = 0
+    for _ in range(n):
+        k = rng.choice([2, 2, 3, 4])
+        rrs = [c10.spec_rule_recipe(rng) for _ in range(k)]
+        try:
+            specs = [gd.spell_rule(rng, rr, copy.deepcopy(rng.choice(gd.DOC_SHAPES))) for rr in rrs]
+        except Unencodable:
+            continue
+        as_tuple = rng.random() < 0.5
+        share = [[j, field] for j in range(1, len(specs)) for field in ("path", "condition", "cast", "doc")
+                 if field in specs[0] and rng.random() < 0.45]
+        plain = to_lit(copy.deepcopy(specs))
+        entry = rng.choice(["init_rules", "from_json_like", "rule_by_rule"])
+        done += 1
+        rep.note_case(repr((plain, share, as_tuple, entry)))
+        shared_case(rep, specs, share, as_tuple, entry, plain)
+    rep.traces += done
+    rep.evaluations += 2 * done
+    return done
+
+
+def shared_case(rep, specs, share, as_tuple, entry, plain):
+    import valida
+
+    src = specs[0]
+    if as_tuple and isinstance(src.get("path"), list):
+        src["path"] = tuple(src["path"])
+    for j, field in share:
+        specs[j][field] = src[field]               # the very same object
+    if True:
+
+        def parse():
+            if entry == "init_rules":
+                return valida.Schema(valida.Schema.init_rules(specs))
+            if entry == "from_json_like":
+                return valida.Schema.from_json_like(specs)
+            return valida.Schema([valida.Rule.from_spec(sp) for sp in specs])
+
+        before = doc_snap(specs)
+        out1, s1 = outcome_of(parse)
+        mid = doc_snap(specs)
+        out2, s2 = outcome_of(parse)
+        after = doc_snap(specs)
+        case = {"kind": "shared_schema", "specs": plain, "share": share, "as_tuple": as_tuple, "entry": entry}
+        if out1 != "ok" or out2 != "ok":
+            if out1 != out2:
+                rep.reject({"clause": "SecondParseSucceeds", "leg": "S", "entry": entry}, dict(case, detail=f"{out1} then {out2}"))
+            return
+        if mid != before or after != before:
+            rep.reject({"clause": "SpecUnchangedByParsing", "leg": "S", "entry": entry}, dict(case, detail="a shared structure changed"))
+        elif not (s1 == s2 and s2 == s1):
+            rep.reject({"clause": "SecondParseEqualsFirst", "leg": "S", "entry": entry}, case)
+
+
 # ---------------------------------------------------------------- leg C: shared sub-structures
 def replay_store(rep, pool, beh):
     """pool: inner structures (abstract values); beh: sequence of parse calls [kind, i, j]"""
@@ -104,6 +166,7 @@ def run(rep, tier, seed):
     cond_specs(rep, rng, 3000 * k, events, recipes)
     c10.make_events(rep, rng, 3000 * k, events, recipes, with_dsl=False)
     gd.judge(rep, events, recipes, "C16")
+    rep.extra["shared_schema_specs"] = shared_schema_specs(rep, rng, 400 * k)
     for e in events[:: max(1, len(events) // 2)][:2]:
         rep.sample({"src": recipes[e["id"]], "outcome": e["outcome"], "outcome2": e["outcome2"], "eq12": e["eq12"]})
     rep.rule = (f"leg C: {len(behs)} TLC-generated parse histories over specs sharing sub-structures; leg B: seeded well-formed "
@@ -115,6 +178,15 @@ def run(rep, tier, seed):
 
 def replay(rep, case):
     c = case["case"]
+    if c.get("kind") == "shared_schema":
+        from harness.common import from_lit
+        print("shared-structure schema case:", c.get("entry"), c.get("detail"))
+        shared_case(rep, from_lit(c["specs"]), c["share"], c["as_tuple"], c["entry"], c["specs"])
+        rep.states += 1
+        rep.transitions += 1
+        rep.traces += 1
+        rep.sample({"recorded": c.get("entry")})
+        return
     if c.get("kind") == "store":
         bad = replay_store(rep, c["pool"], c["behaviour"])
         if bad:
